@@ -218,6 +218,9 @@ void OPNMIDIplay::resetMIDI()
 
     m_midiChannels.clear();
     m_midiChannels.resize(16, MIDIchannel());
+    // The MIDI devices (ports) named by the previous song went away with its channels
+    m_midiDevices.clear();
+    m_currentMidiDevice.clear();
 
     resetMIDIDefaults();
 
